@@ -1143,6 +1143,15 @@ pub struct World {
     pub net: Arc<Net>,
 }
 
+/// the fake network and the proxies reference each other (proxy -> Net as connection factory,
+/// Net -> proxy as target): break the cycle when the world goes away
+impl Drop for World {
+    fn drop(&mut self) {
+        self.net.nodes.lock().clear();
+        self.net.conns.lock().clear();
+    }
+}
+
 pub fn world_runtime() -> tokio::runtime::Runtime {
     tokio::runtime::Builder::new_current_thread().enable_time().start_paused(true).build().expect("runtime")
 }
